@@ -10,6 +10,7 @@ Definition ocres (r : cresult) : list obs :=
   | CRFailed => [ON 3%Z]
   | CRDeleted => [ON 4%Z]
   | CRNotFound => [ON 5%Z]
+  | CRRestored id => [OL [ON 7%Z; oN id]]
   | CRList l => [OL (ON 6%Z :: map (fun p => OL [oN (fst p); oN (snd p)]) (fold_right ins_pair [] l))]
   end.
 Record c14case := { g_managers : nat; g_acts : list caction; g_impl : obs }.
